@@ -1,6 +1,7 @@
 package kafka
 
 import (
+	"github.com/kubeshark/base/pkg/verifhook"
 	"sync"
 	"time"
 
@@ -31,6 +32,7 @@ func (matcher *requestResponseMatcher) SetMaxTry(value int) {
 }
 
 func (matcher *requestResponseMatcher) registerRequest(key string, request *Request) *RequestResponsePair {
+	verifhook.Yield("match.req.pre")
 	if response, found := matcher.openMessagesMap.LoadAndDelete(key); found {
 		// Check for a situation that only occurs when a Kafka broker is initiating
 		switch v := response.(type) {
@@ -39,11 +41,13 @@ func (matcher *requestResponseMatcher) registerRequest(key string, request *Requ
 		}
 	}
 
+	verifhook.Yield("match.req.mid")
 	matcher.openMessagesMap.Store(key, request)
 	return nil
 }
 
 func (matcher *requestResponseMatcher) registerResponse(key string, response *Response) *RequestResponsePair {
+	verifhook.Yield("match.res.pre")
 	try := 0
 	for {
 		try++
@@ -53,6 +57,7 @@ func (matcher *requestResponseMatcher) registerResponse(key string, response *Re
 		if request, found := matcher.openMessagesMap.LoadAndDelete(key); found {
 			return matcher.preparePair(request.(*Request), response)
 		}
+		verifhook.Yield("match.res.poll")
 		time.Sleep(1 * time.Millisecond)
 	}
 }
